@@ -252,6 +252,15 @@ func vcRunC12(t *vcTrial, cell vc12Cell) {
 			return
 		}
 	}
+	// half of the trials: a timed read really waited before the close, so the connection's read
+	// timer exists and a timeout stays configured for the calls after the close
+	timedBefore := r.chance(50) && !(cell.Callbacks && nIn > 0)
+	if timedBefore {
+		A.SetReadTimeout(time.Duration(r.rng(1, 5)) * time.Millisecond)
+		A.Reader().Next(nIn + 1000) // times out
+		A.SetReadTimeout(300 * time.Millisecond)
+	}
+	t.P("timed_read_before_close", timedBefore)
 	if cell.Output {
 		if b, err := A.Writer().Malloc(100); err == nil {
 			vfFill(b, seed^1, 0)
